@@ -59,7 +59,7 @@ Blame(c, part) ==
     [] c = "idt"    -> IF part THEN "PIDtype" ELSE "IDtype"
 
 Obs(b, np, c, site, lost) ==
-  [meta |-> b, nparts |-> np,
+  [meta |-> b, nparts |-> np, ndivs |-> np,
    whole |-> IF site = 0 THEN Corrupt(b, c) ELSE b,
    parts |-> [i \in 1..(IF lost THEN np - 1 ELSE np) |-> IF site = i THEN Corrupt(b, c) ELSE b]]
 
